@@ -19,6 +19,7 @@ coercions, edge parameters.  The declared types follow `get_output_type`: the fi
 `validQ` (`Model/Args.lean`) says `null` iff that level is nullable, lists element-wise.
 -/
 import TrustfallModel.Proofs.InterpInvMain
+import TrustfallModel.Proofs.InterpInvWitness
 
 namespace TF.C13
 open TF TF.Engine
@@ -79,7 +80,30 @@ theorem count_value_is_integer {v : Value} (h : validQ ⟨"Int", [false]⟩ v = 
   · exact Or.inl ⟨_, rfl⟩
   · exact Or.inr ⟨_, rfl⟩
 
+/-! ### non-vacuity: a concrete world meets all four hypotheses and yields a row
+
+`Witness.F9` (Proofs/InterpInvWitness.lean): a root vertex with an `@optional` edge that is missing for
+the only starting vertex, a `@fold` with a count filter hanging off the optional vertex, one output. -/
+example : WFq Witness.F9.ir = true ∧ SchemaOK Witness.F9.S Witness.F9.ir = true ∧
+    ArgsOK Witness.F9.ir Witness.F9.args = true ∧ Conforms Witness.F9.S Witness.F9.D = true :=
+  ⟨Witness.F9.hyps.1, Witness.F9.hyps.2.1, Witness.F9.hyps.2.2.1, Witness.F9.hyps.2.2.2.1⟩
+
+/-- … and on it the two theorems say what the run shows: the row's keys are the declared names, and
+its value is valid for the declared type. -/
+example : ∀ r ∈ Witness.F9.rows, r.map (·.1) = Witness.F9.ir.outputs.map (·.name) :=
+  rows_keys Witness.F9.S Witness.F9.D Witness.F9.ir Witness.F9.args Witness.F9.hyps.1
+    Witness.F9.hyps.2.1 Witness.F9.hyps.2.2.1 Witness.F9.hyps.2.2.2.1 Witness.F9.runs
+
+example : ∀ r ∈ Witness.F9.rows, ∀ p ∈ r,
+    ∃ o ∈ Witness.F9.ir.outputs, o.name = p.1 ∧ validQ o.ty p.2 = true :=
+  rows_typed Witness.F9.S Witness.F9.D Witness.F9.ir Witness.F9.args Witness.F9.hyps.1
+    Witness.F9.hyps.2.1 Witness.F9.hyps.2.2.1 Witness.F9.hyps.2.2.2.1 Witness.F9.runs
+
 end TF.C13
 
 #print axioms TF.C13.rows_keys
 #print axioms TF.C13.rows_typed
+#print axioms TF.C13.declared_nullable_in_optional
+#print axioms TF.C13.declared_fold_levels
+#print axioms TF.C13.declared_count
+#print axioms TF.C13.count_value_is_integer
